@@ -23,7 +23,16 @@ def run(ctx, prog, facts, tier):
     mvs = rules_c02.moves(True, sym_squares if tier == 'quick' else None)
     rules_c02.check_move_footprint(ctx, prog, I, mvs)
     rules_c02.check_capture_footprint(ctx, prog, I)
+    from . import rules_local
+    rules_local.check_capture_tables(ctx, prog, I)
+    rules_local.check_freeze_tables(ctx, prog, I, tier == 'quick')
+    rules_local.check_push_tables(ctx, prog, I)
     rules_c04.check_terminal(ctx, prog, I)
+    # which turn-ending actions the repetition rules withhold depends on the hash telling positions apart: table and row-index
+    # injectivity (C17 clauses) is a necessary condition of the symmetry of those decisions
+    from . import rules_hash
+    rules_hash.check_tables(ctx, prog)
+    rules_hash.check_index_maps(ctx, prog, I)
     rules_c03.check_status_machine(ctx, prog, I, [G.sq('d', 4), G.sq('e', 5)] if tier == 'quick' else list(range(64)))
     ctx.exhaustive = tier != 'quick'
     ctx.assumptions += ['NOT decided: symmetry of the repetition filter\'s outcomes and of the order of the offered list (the order is '
